@@ -94,6 +94,59 @@ inline void applyOptions(GMGPolar& s, const Cfg& k)
     s.relativeTolerance(k.reltol);
 }
 
+// only the options whose value differs from the previous block, as a user who changes one thing and calls setup()/solve() again
+inline void applyOptionsDelta(GMGPolar& s, const Cfg& p, const Cfg& k)
+{
+    if (p.threads != k.threads)
+        s.maxOpenMPThreads(k.threads);
+    if (p.tfactor != k.tfactor)
+        s.threadReductionFactor(k.tfactor);
+    if (p.strat != k.strat)
+        s.stencilDistributionMethod(static_cast<StencilDistributionMethod>(k.strat));
+    if (p.cc != k.cc)
+        s.cacheDensityProfileCoefficients(k.cc != 0);
+    if (p.cg != k.cg)
+        s.cacheDomainGeometry(k.cg != 0);
+    if (p.R0 != k.R0)
+        s.R0(k.R0);
+    if (p.Rmax != k.Rmax)
+        s.Rmax(k.Rmax);
+    if (p.nr_exp != k.nr_exp)
+        s.nr_exp(k.nr_exp);
+    if (p.ntheta_exp != k.ntheta_exp)
+        s.ntheta_exp(k.ntheta_exp);
+    if (p.aniso != k.aniso)
+        s.anisotropic_factor(k.aniso);
+    if (p.div2 != k.div2)
+        s.divideBy2(k.div2);
+    if (p.dirbc != k.dirbc)
+        s.DirBC_Interior(k.dirbc != 0);
+    if (p.fmg != k.fmg)
+        s.FMG(k.fmg != 0);
+    if (p.fmg_it != k.fmg_it)
+        s.FMG_iterations(k.fmg_it);
+    if (p.fmg_cycle != k.fmg_cycle)
+        s.FMG_cycle(static_cast<MultigridCycleType>(k.fmg_cycle));
+    if (p.extr != k.extr)
+        s.extrapolation(static_cast<ExtrapolationType>(k.extr));
+    if (p.maxlev != k.maxlev)
+        s.maxLevels(k.maxlev);
+    if (p.pre != k.pre)
+        s.preSmoothingSteps(k.pre);
+    if (p.post != k.post)
+        s.postSmoothingSteps(k.post);
+    if (p.cycle != k.cycle)
+        s.multigridCycle(static_cast<MultigridCycleType>(k.cycle));
+    if (p.maxit != k.maxit)
+        s.maxIterations(k.maxit);
+    if (p.norm != k.norm)
+        s.residualNormType(static_cast<ResidualNormType>(k.norm));
+    if (p.abstol != k.abstol)
+        s.absoluteTolerance(k.abstol);
+    if (p.reltol != k.reltol)
+        s.relativeTolerance(k.reltol);
+}
+
 inline std::unique_ptr<GMGPolar> makeSolver(const Cfg& k)
 {
     Problem p = k.problem();
